@@ -207,10 +207,13 @@ end IntTy
 def wrap (t : IntTy) (n : Int) : Int :=
   if t.signed then (n + 2 ^ (t.bits - 1)) % 2 ^ t.bits - 2 ^ (t.bits - 1) else n % 2 ^ t.bits
 
+/-- the character of a decimal digit -/
+def digitChar (d : Nat) : UInt8 := UInt8.ofNat (48 + d)
+
 /-- decimal digits of a natural number (what `printf("%u")` prints); `fuel` bounds the number of digits -/
 def natDecF : Nat → Nat → Bytes
   | 0, _ => []
-  | f + 1, n => if n < 10 then [UInt8.ofNat (48 + n)] else natDecF f (n / 10) ++ [UInt8.ofNat (48 + n % 10)]
+  | f + 1, n => if n < 10 then [digitChar n] else natDecF f (n / 10) ++ [digitChar (n % 10)]
 
 def natDec (n : Nat) : Bytes := natDecF (n + 1) n
 
